@@ -280,9 +280,55 @@ class GuardView:
             return False
         return saw_true
 
+    def _no_child_loop(self, g, key):
+        """the `for k in map.keys() { if k.starts_with(key + "/") && !k[prefix.len()..].contains('/') { return Err(..) } }` spelling of
+        the scan: the site lies behind the loop's exhaustion edge (`next()` is None), and every way round the loop passes a branch
+        outcome that says "this key is not a direct child" (not below the prefix, or deeper than one level)"""
+        if not (g[0] == "variant" and len(g) > 3 and g[3] == "None") or self.inter is None:
+            return False
+        t = _peel(g[1])
+        if not (t[0] == "call" and short_name(t[1]) == "next" and len(t) > 3 and t[3] and t[2]):
+            return False
+        from .terms import walk as _walk
+        if not any(x[0] == "call" and x[1] in ("HashMap::keys", "BTreeMap::keys", "HashMap::iter", "BTreeMap::iter") for x in _walk(t[2][0])):
+            return False
+        facts = self.inter.facts
+        b = facts.body(t[3][0])
+        if b is None:
+            return False
+        h = t[3][1]
+        tr = get_tracer(facts, b)
+        cfg = tr.cfg
+        L = cfg.loop_blocks(h)
+        cycles = []
+        for e in cfg.edges:
+            if e[0] == h and e[1] in L:
+                ps = cfg.paths(e[1], lambda x: x == h, limit=200)
+                if ps is None:
+                    return False
+                cycles += [[e] + p for p in ps]
+        if not cycles:
+            return False
+        from .panics import nguard as _ng
+        for path in cycles:
+            ok = False
+            for (s_, d_, label) in path:
+                if label is None or b.blocks[s_].term.kind != "switch":
+                    continue
+                for g2 in (_ng(x) for x in tr.edge_pred(b.blocks[s_].term, label, s_)):
+                    if g2[0] == "bool" and g2[1][0] == "call" and g2[1][1] == "str::starts_with" and len(g2[1][2]) == 2 and \
+                            g2[2] is False and self._is_child_prefix(g2[1][2][1], key):
+                        ok = True
+                    if g2[0] == "bool" and g2[1][0] == "call" and g2[1][1] == "str::contains" and len(g2[1][2]) == 2 and \
+                            g2[2] is True and g2[1][2][1] == ("char", "/"):
+                        ok = True
+            if not ok:
+                return False
+        return True
+
     def empty_dir(self, key):
         for g in self.gs:
-            if self._no_child_scan(g, key):
+            if self._no_child_scan(g, key) or self._no_child_loop(g, key):
                 return True
         for g in self.gs:
             if g[0] == "bool" and g[1][0] == "call" and g[1][1] in ("Option::is_some", "Option::is_none") and g[1][2]:
